@@ -28,11 +28,15 @@ def inconclusive(obs):
 class ChansSpec(SeqSpec):
     component = "chans"
     package = "chans"
-    imports = "From Juniper Require Import Common.Base Conc.GoLTS Conc.Merge.\nImport CM."
+    imports = "From Juniper Require Import Common.Base Conc.GoLTS Conc.Merge.\nFrom Juniper Require Conc.MergeMatcher.\nImport CM."
+    # a rejection counts only when certified genuine (MergeMatcher.CMM.cm_reject_genuine)
     preamble = ("Local Open Scope nat_scope.\n"
                 "Definition chk (c : bool * list nat * list nat * list lab) : bool :=\n"
-                "  let '(rep, ic, oc, evs) := c in accepts_history rep ic oc evs.")
-    checkers = {"M": "chk"}
+                "  let '(rep, ic, oc, evs) := c in accepts_history rep ic oc evs || negb (MergeMatcher.CMM.cm_converged rep ic oc evs).\n"
+                "Definition chk_conv (c : bool * list nat * list nat * list lab) : bool :=\n"
+                "  let '(rep, ic, oc, evs) := c in MergeMatcher.CMM.cm_converged rep ic oc evs.")
+    checkers = {"M": "chk", "converged": "chk_conv"}
+    informational = {"converged"}
 
     # ---------------------------------------------------------------- generation
     def gen_one(self, rng, idx):
@@ -260,11 +264,15 @@ class ChansSpec(SeqSpec):
 class SMergeSpec(SeqSpec):
     component = "smerge"
     package = "stream"
-    imports = "From Juniper Require Import Common.Base Conc.GoLTS Conc.Merge.\nImport SM."
+    imports = "From Juniper Require Import Common.Base Conc.GoLTS Conc.Merge.\nFrom Juniper Require Conc.MergeMatcher.\nImport SM."
+    # a rejection counts only when certified genuine (MergeMatcher.SMM.sm_reject_genuine)
     preamble = ("Local Open Scope nat_scope.\n"
                 "Definition chk (c : list (list Z * option Z) * list kcmd * nat * list lab) : bool :=\n"
-                "  let '(sc, pr, n, evs) := c in accepts_history sc pr n evs.")
-    checkers = {"M": "chk"}
+                "  let '(sc, pr, n, evs) := c in accepts_history sc pr n evs || negb (MergeMatcher.SMM.sm_converged sc pr n evs).\n"
+                "Definition chk_conv (c : list (list Z * option Z) * list kcmd * nat * list lab) : bool :=\n"
+                "  let '(sc, pr, n, evs) := c in MergeMatcher.SMM.sm_converged sc pr n evs.")
+    checkers = {"M": "chk", "converged": "chk_conv"}
+    informational = {"converged"}
 
     def gen_one(self, rng, idx):
         n = [0, 1, 2, 3, 4, 2, 3][idx % 7]
